@@ -393,6 +393,28 @@ def interned_construction(rep: Report, prog: Program, resolver: Resolver, summ: 
                       "silently keeps name None", fi.where(node))
 
 
+def key_directed_interning(rep: Report, prog: Program, handles: Dict[str, bool]) -> None:
+    """R19.13: a constructor call names the object interned under the structural key *of that call*.  When the
+    already-initialised arm of __init__ registers the name and symbol it is given (late naming), an object that
+    __new__ fetched from a name or symbol registry instead - an object of another key - gets this call's symbol bound
+    to it, and the duplicate-name test (`registry[name] is not self`) passes because the name is its own."""
+    for cls in ("Dimension", "Prefix", "Unit"):
+        new = prog.func(f"{cls}.__new__")
+        by_name = [r for r in ast.walk(new.node) if isinstance(r, ast.Return) and r.value is not None
+                   and any(isinstance(x, ast.Attribute) and x.attr in ("_by_name", "_by_symbol") for x in ast.walk(r.value))]
+        # a local fetched from a naming registry and returned
+        named_locals = {t.id for n in ast.walk(new.node) if isinstance(n, ast.Assign) for t in n.targets if isinstance(t, ast.Name)
+                        and any(isinstance(x, ast.Attribute) and x.attr in ("_by_name", "_by_symbol") for x in ast.walk(n.value))}
+        by_name += [r for r in ast.walk(new.node) if isinstance(r, ast.Return) and isinstance(r.value, ast.Name) and r.value.id in named_locals]
+        late = handles.get(cls, False)
+        rep.check("R19.13", f"{cls}.__new__", not (by_name and late),
+                  f"{cls}.__new__ can return an object fetched by name (`{ast.unparse(by_name[0])[:60] if by_name else ''}`) although the call's "
+                  f"structural key is not that object's, and {cls}.__init__ registers the given name and symbol on an already initialised "
+                  "instance: a definition that repeats a taken name with another key no longer raises - it binds its new symbol to the "
+                  "existing object", new.where(by_name[0]) if by_name else new.where(),
+                  note=("fetches by name, but __init__ leaves an initialised instance untouched" if by_name else "returns only objects interned under the call's key"))
+
+
 def no_asserts_in_definitions(rep: Report, prog: Program, resolver: Resolver) -> None:
     """R19.11: `python -O` deletes assert statements.  In the functions that validate and register names, an assert
     that carries the uniqueness test lets duplicates through, and one that carries the registration itself
@@ -500,6 +522,8 @@ def run(rep: Report) -> None:
     rep.rule("R19.4", "anonymous before named: no shipped declaration names a key that was already constructed anonymously "
              "(under every entry module), unless the constructor handles late naming", floor=25)
     rep.rule("R19.5", "uniqueness in shipped tables: no name or symbol is declared for two objects", floor=300)
+    rep.rule("R19.13", "an interning __new__ whose __init__ registers names on initialised instances returns only the object of the call's own key, "
+             "never one fetched from a name/symbol registry", floor=3)
     rep.rule("R19.11", "no assert statement in the functions that validate or register names (python -O deletes it)", floor=5)
     rep.rule("R19.12", "the name and symbol registries are plain dicts", floor=5)
     rep.rule("R19.10", "named(name) is the name registry's entry for that name", floor=2)
@@ -527,6 +551,7 @@ def run(rep: Report) -> None:
     handles = late_naming(rep, prog, resolver, ev)
     prefix_late = handles.get("Prefix", False)
     interned_construction(rep, prog, resolver, summ, handles)
+    key_directed_interning(rep, prog, handles)
     entries = ["systems"] + (shipped_modules() if rep.tier == "thorough" else [])
     seen_keys: Set[str] = set()
     for entry in entries:
